@@ -78,6 +78,33 @@ func exprHasSync(n ast.Node) (recv bool, closeCall bool, lock bool) {
 
 func any3(a, b, c bool) bool { return a || b || c }
 
+// otherSyncNames: methods of sync.Once, sync.WaitGroup, sync.Cond and the atomic types. Without type information any
+// method of these names counts; a statement calling one is bracketed by verifrt.HBSync(), which only ever adds
+// happens-before edges (fewer reports from the shared-map check, never more).
+var otherSyncNames = map[string]bool{"Do": true, "Wait": true, "Done": true, "Store": true, "Load": true, "Swap": true, "CompareAndSwap": true,
+	"Signal": true, "Broadcast": true}
+
+func stmtHasOtherSync(s ast.Stmt) bool {
+	switch s.(type) {
+	case *ast.BlockStmt, *ast.LabeledStmt, *ast.CaseClause, *ast.CommClause, *ast.GoStmt, *ast.DeferStmt, *ast.SelectStmt, *ast.ForStmt, *ast.RangeStmt,
+		*ast.SwitchStmt, *ast.TypeSwitchStmt, *ast.IfStmt:
+		return false
+	}
+	found := false
+	ast.Inspect(s, func(x ast.Node) bool {
+		switch v := x.(type) {
+		case *ast.FuncLit:
+			return false
+		case *ast.CallExpr:
+			if se, ok := v.Fun.(*ast.SelectorExpr); ok && otherSyncNames[se.Sel.Name] {
+				found = true
+			}
+		}
+		return true
+	})
+	return found
+}
+
 func stmtNeedsYield(s ast.Stmt) bool {
 	switch v := s.(type) {
 	case *ast.SendStmt:
@@ -318,6 +345,15 @@ func processList(list []ast.Stmt, rel string) []ast.Stmt {
 				out = append(out, ls)
 			} else {
 				out = append(out, r)
+			}
+			continue
+		}
+		if stmtHasOtherSync(inner) && !stmtNeedsYield(inner) && !hasLock {
+			out = append(out, &ast.ExprStmt{X: call("HBSync")})
+			out = append(out, s)
+			switch inner.(type) {
+			case *ast.ExprStmt, *ast.AssignStmt, *ast.DeclStmt, *ast.IncDecStmt:
+				out = append(out, &ast.ExprStmt{X: call("HBSync")})
 			}
 			continue
 		}
